@@ -314,6 +314,24 @@ func genLengths(r *lib.Rng, tier string) (npre, nsamp int) {
 	if r.Chance(1, 2) {
 		npre = nsamp / 4
 	}
+	// legal but unusual record geometries: nothing before START refuses them (PrepareRun takes any lengths; the RPC
+	// layer only wants both positive): as many or more pre-trigger samples than samples, tiny records, one sample
+	if r.Chance(1, 6) {
+		switch r.Intn(5) {
+		case 0:
+			npre = nsamp
+		case 1:
+			npre = nsamp + r.Range(1, 9)
+		case 2:
+			nsamp = r.Range(1, 8)
+			npre = nsamp
+		case 3:
+			nsamp, npre = 1, r.Pick([]int{0, 1, 2, 100})
+		default:
+			nsamp = r.Range(2, 4)
+			npre = r.Pick([]int{0, nsamp - 1, nsamp, 3 * nsamp})
+		}
+	}
 	return
 }
 
@@ -406,7 +424,7 @@ func genBenchCase(r *lib.Rng, id int64, tier string) Case {
 		}
 	}
 	c := Case{ID: id, Kind: "bench", Source: tricky(r, sources[r.Intn(len(sources))]), NPre: npre, NSamp: nsamp, Chans: chans,
-		UseMap: r.Chance(1, 2)}
+		UseMap: r.Chance(1, 2), Signed: r.Chance(1, 3)}
 	c.SfDiv = genSfDiv(r, chans[0].Rows)
 	if sfByRow {
 		c.SfDiv = chans[0].Rows
@@ -633,6 +651,26 @@ func corpus() []Case {
 			{Op: "pub", Ch: 0, Recs: []Rec{simpleRec(2, 2000, 0, ramp(6, 2), 3.5)}}, {Op: "stop"},
 			{Op: "pulse", NS: 6, NP: 4}, {Op: "start", TOFF: true}, {Op: "start", T22: true},
 			{Op: "pub", Ch: 0, Recs: []Rec{simpleRec(3, 3000, 0, ramp(6, 3), 4.5)}}, {Op: "stop"}}},
+		// as many pre-trigger samples as samples (8/8), all three types, two batches (the header is written with the first,
+		// the second must find it written); a signed source: the files hold the samples as they are
+		{Kind: "bench", Source: "Abaco", SfDiv: 64, NPre: 8, NSamp: 8, RateNum: 1000000, RateDen: 1, Signed: true, Chans: []Chan{
+			{Name: "chan1", Number: 1, Rows: 2, Cols: 1, Row: 1, Col: 0, NBases: 1, Proj: fbits(1, 0, 0, 0, 0, 0, 0, 0), Basis: fbits(1, 0, 0, 0, 0, 0, 0, 0), Desc: "m"}}, Ops: []Op{
+			{Op: "start", T22: true, T3: true, TOFF: true},
+			{Op: "pub", Ch: 0, Recs: []Rec{simpleRec(1, 1000, 0, []uint16{65534, 65535, 0, 1, 2, 32767, 32768, 32769}, 2.5)}},
+			{Op: "pub", Ch: 0, Recs: []Rec{simpleRec(2, 2000, 0, ramp(8, 65530), 3.5), simpleRec(3, 3000, 0, ramp(8, 32760), 4.5)}},
+			{Op: "stop"}}},
+		// one-sample records, more pre-trigger samples than samples
+		{Kind: "bench", Source: "Roach", SfDiv: 0, NPre: 5, NSamp: 1, RateNum: 10000, RateDen: 1, Chans: []Chan{
+			{Name: "chan1", Number: 1, Rows: 1, Cols: 1, NBases: 2, Proj: fbits(1, 2), Basis: fbits(3, 4), Desc: ""}}, Ops: []Op{
+			{Op: "start", T22: true, T3: true, TOFF: true},
+			{Op: "pub", Ch: 0, Recs: []Rec{simpleRec(1, 1000, 0, ramp(1, 7), 1, 2), simpleRec(2, 2000, 0, ramp(1, 8), 3, 4)}},
+			{Op: "flush", Ch: 0},
+			{Op: "pub", Ch: 0, Recs: []Rec{simpleRec(3, 3000, 0, ramp(1, 9), 5, 6)}},
+			{Op: "stop"}}},
+		{Kind: "woff", Source: "z", SfDiv: 1, NPre: 8, NSamp: 8, Nchan: 1, Index: 0, Spp: 1, TbBits: math.Float64bits(1e-6),
+			Chans: []Chan{{Name: "chan0", Number: 0, Rows: 1, Cols: 1, PRows: 1, PCols: 8, BRows: 8, BCols: 1,
+				Proj: fbits(1, 0, 0, 0, 0, 0, 0, 0), Basis: fbits(1, 0, 0, 0, 0, 0, 0, 0), Desc: "m"}},
+			Ops: []Op{{Op: "rec", Recs: []Rec{simpleRec(1, 2, 8, ramp(8, 0), 1), simpleRec(2, 3, 8, ramp(8, 0), 2)}}}},
 		// sub-frame divisions 0 (Triangle, Roach) with a non-zero offset, divisions 1; a pixel name, channel name, source name
 		// and model description full of format verbs, quotes, backslashes and non-ASCII text
 		{Kind: "bench", Source: "Tri%dangle 100% \"q\" \\ \u00b5", SfDiv: 0, NPre: 1, NSamp: 4, RateNum: 156250, RateDen: 1, UseMap: true, Chans: []Chan{
